@@ -21,11 +21,13 @@ type c06Ill struct {
 
 // c06TearSpec: saves from another goroutine race with a dense stream of acknowledgements, every event in a snapshot of
 // its own, so that consecutive positions differ in every field: a stored tuple mixed from two events would show.
-func c06TearSpec(rng *rand.Rand, i int) *SessSpec {
+func c06TearSpec(rng *rand.Rand, i int) *SessSpec { return c06TearSpecN(rng, i, 300) }
+
+func c06TearSpecN(rng *rand.Rand, i int, events int) *SessSpec {
 	sp := &SessSpec{NumVB: 1 + rng.Intn(2), Nodes: 1, AckSeed: rng.Int63(), Backlog: map[int][][]ItemSpec{}, Backend: "mem", PNow: 1}
 	n := 0
 	sp.Steps = append(sp.Steps, Step{Op: "barrier"}, Step{Op: "commitstorm"})
-	for k := 0; k < 300; k++ {
+	for k := 0; k < events; k++ {
 		n++
 		sp.Steps = append(sp.Steps, Step{Op: "append", VB: rng.Intn(sp.NumVB), Items: []ItemSpec{{K: "m", Key: []byte(fmt.Sprintf("t%d", n)), Val: []byte("{}")}}})
 	}
@@ -207,7 +209,7 @@ func init() {
 			// Commit() reads the entry while an acknowledgement rewrites it
 			tr2 := rand.New(rand.NewSource(seed*101 + 31))
 			for i := 0; i < 2*nt; i++ {
-				out = append(out, drv.Scenario{Kind: "tear", Seed: seed, Params: mustJSON(c06TearSpec(tr2, i)), TimeoutS: 90, Solo: true, GoMaxProcs: []int{2, 4, 8, 16}[i%4]})
+				out = append(out, drv.Scenario{Kind: "tear", Seed: seed, Params: mustJSON(c06TearSpecN(tr2, i, 2500)), TimeoutS: 120, Solo: true, GoMaxProcs: []int{2, 4, 8, 16}[i%4]})
 			}
 			ills := []c06Ill{}
 			for _, m := range []string{"below", "above", "nomarker"} {
